@@ -312,6 +312,8 @@ class RefObj:
                 return float(b[a[1]]) if 0 <= a[1] < len(b) else -1.0
             if m.echo == "scaled":
                 return o.num["pt"] * a[0]
+            if m.echo == "enum10":
+                return float(int(a[0]) * 10 + 1)
         if m.kind == "obj":
             rid = o.ref.get(m.name, -1)
             return RefObj(rt.event.objs[rid] if rid >= 0 else None, m.cls, rt)
@@ -482,7 +484,19 @@ class Runtime:
                 "__builtins__": {"abs": abs, "pow": pow, "True": True, "False": False, "len": None},
             }
         )
-        e.update(self.extra_env)
+        # declared enums as nested namespaces holding the integer values
+        import types
+
+        for en in getattr(self.schema, "enums", []):
+            parts = en.dotted.split(".")
+            cur = e.setdefault(parts[0], types.SimpleNamespace())
+            for p_ in parts[1:]:
+                if not hasattr(cur, p_):
+                    setattr(cur, p_, types.SimpleNamespace())
+                cur = getattr(cur, p_)
+            for i, v in enumerate(en.values):
+                setattr(cur, v, i)
+        e.update({k: v for k, v in self.extra_env.items() if k != "__methods__"})
         return e
 
     def run_event(self, code, event: Event) -> dict:
